@@ -56,7 +56,7 @@ type block struct {
 	data  []byte
 }
 
-func layout(r *rand.Rand, n int, lens func() int) []block {
+func layout(r *rand.Rand, n int, lens func() int, wide bool) []block {
 	var out []block
 	cur := uint64(0x1000)
 	switch r.Intn(4) {
@@ -64,6 +64,14 @@ func layout(r *rand.Rand, n int, lens func() int) []block {
 		cur = 4
 	case 1:
 		cur = 1<<32 - 64
+		if wide {
+			// 64-bit address space: around 2^63 (a block straddling it or ending exactly
+			// there), the upper half, near the top without wrapping
+			cur = []uint64{1<<63 - 64, 1<<63 - 16, 1<<63 - 4, 1 << 63, 0xffffffff80000000, 1<<64 - 0x1000, 1<<32 - 64}[r.Intn(7)]
+			if r.Intn(2) == 0 {
+				cur -= cur % 4
+			}
+		}
 	}
 	for i := 0; i < n; i++ {
 		cur += uint64(r.Intn(3)) * uint64(1+r.Intn(40)) // gap 0 => adjacent blocks
@@ -161,7 +169,7 @@ func sorted(bs []block) []block {
 }
 
 func runStub(c *mon.Case, r *rand.Rand) {
-	bs := layout(r, 1+r.Intn(5), func() int { return 1 + r.Intn(30) })
+	bs := layout(r, 1+r.Intn(5), func() int { return 1 + r.Intn(30) }, true)
 	bad := r.Intn(3) == 0
 	for bi := range bs {
 		// fill with a valid tiling first
@@ -227,7 +235,7 @@ func runRV(c *mon.Case, r *rand.Rand) {
 			n += 1 + r.Intn(3) // truncated last word
 		}
 		return n
-	})
+	}, cfg.XLEN == 64)
 	for bi := range bs {
 		d := bs[bi].data
 		for i := 0; i+4 <= len(d); i += 4 {
